@@ -327,9 +327,9 @@ fn main() {
     std::panic::set_hook(Box::new(|_| {}));
     let workers = cfg.workers;
     run(cfg, move |ctx| {
-        // the scheduler is created by the first spawn under a std `Once`: do it before other threads exist; one spawn per
-        // worker so that every worker has left its first select (the one without a timeout) in some runs and not in others
-        for _ in 0..(sh.seed as usize % (workers + 1)) {
+        // the scheduler is created by the first spawn under a std `Once`: do it before other threads exist; up to one spawn
+        // per worker so that every worker has left its first select (the one without a timeout) in some runs and not in others
+        for _ in 0..(1 + sh.seed as usize % workers.max(1)) {
             let h = unsafe { may::coroutine::spawn(|| {}) };
             let _ = h.join();
         }
